@@ -66,6 +66,11 @@ type state struct {
 	nonFreshDest bool
 	roPhase      bool
 	steps        int
+	// latent: per root, the aliasing preconditions (ptrslice-spare with stale slots, valslice-stale, map-stale) of
+	// earlier copies into it that showed no divergence at the time. Two destination entries that were made to
+	// alias one object stay invisible as long as they hold equal content (e.g. two empty elements); the
+	// aliasing then surfaces at a later, innocent step. Such a divergence carries hazard "latent:<...>".
+	latent map[int]map[string]bool
 }
 
 func kindOf(ti *rp.TypeInfo) string {
@@ -235,11 +240,60 @@ func (st *state) exec(s *step, check bool) bool {
 			}
 		}
 		s.model()
+		st.trackLatent(s)
 	}
 	if check && !st.verify(s) {
 		return false
 	}
 	return !st.failed
+}
+
+var aliasingHazards = []string{"ptrslice-spare", "valslice-stale", "map-stale"}
+
+func (st *state) trackLatent(s *step) {
+	if s.dst == nil {
+		return
+	}
+	add := func(r int, h string) {
+		if st.latent == nil {
+			st.latent = map[int]map[string]bool{}
+		}
+		if st.latent[r] == nil {
+			st.latent[r] = map[string]bool{}
+		}
+		st.latent[r][h] = true
+	}
+	switch s.op {
+	case "CopyTo":
+		for _, h := range aliasingHazards {
+			if strings.Contains(s.haz, h) {
+				add(s.dst.r, h)
+			}
+		}
+	case "MoveTo", "MoveAndAppendTo": // moved elements take their (possibly aliased) objects along
+		if s.recv != nil {
+			for h := range st.latent[s.recv.r] {
+				add(s.dst.r, h)
+			}
+		}
+	}
+}
+
+// stepHazard is the hazard of the step itself or, when it has none, the latent hazards of the pool.
+func (st *state) stepHazard(s *step) string {
+	if s.haz != "" && s.haz != "none" {
+		return s.haz
+	}
+	acc := map[string]bool{}
+	for _, m := range st.latent {
+		for h := range m {
+			acc[h] = true
+		}
+	}
+	if len(acc) == 0 {
+		return "none"
+	}
+	return "latent:" + hazardString(acc)
 }
 
 func orNone(s string) string {
@@ -314,7 +368,7 @@ func (st *state) verify(s *step) bool {
 	sort.Strings(ws)
 	st.c.Violation("model", fmt.Sprintf("after %s: %s%s (%s of %s) is %s, the reference model says %s", s.desc, st.roots[firstRoot].name, first.Path, first.Class, first.Owner, first.Got, first.Want),
 		st.witness(map[string]any{"root": st.roots[firstRoot].name, "path": first.Path, "want": first.Want, "got": first.Got, "owner": first.Owner, "field": first.Field}),
-		"op", s.op, "kind", s.kind, "where", strings.Join(ws, "+"), "class", first.Class, "hazard", orNone(s.haz))
+		"op", s.op, "kind", s.kind, "where", strings.Join(ws, "+"), "class", first.Class, "hazard", st.stepHazard(s))
 	st.failed = true
 	return false
 }
